@@ -9,19 +9,30 @@ use std::time::Duration;
 pub struct Out {
 	pub lines: Vec<String>,
 	pub oracle: Vec<String>,
+	/// watchdog mode: every line is also sent here, so that the lines produced before a hang survive
+	tap: Option<mpsc::Sender<(bool, String)>>,
 }
 impl Out {
 	pub fn new() -> Self {
 		Self {
 			lines: vec![],
 			oracle: vec![],
+			tap: None,
 		}
 	}
 	pub fn put(&mut self, s: impl Into<String>) {
-		self.lines.push(s.into());
+		let s = s.into();
+		if let Some(t) = &self.tap {
+			let _ = t.send((false, s.clone()));
+		}
+		self.lines.push(s);
 	}
 	pub fn oracle_fail(&mut self, name: &str, detail: impl std::fmt::Display) {
-		self.oracle.push(format!("!oracle {} {}", name, detail));
+		let s = format!("!oracle {} {}", name, detail);
+		if let Some(t) = &self.tap {
+			let _ = t.send((true, s.clone()));
+		}
+		self.oracle.push(s);
 	}
 }
 
@@ -99,18 +110,31 @@ where
 			None => run_one(&case, &f),
 			Some(limit) => {
 				let (tx, rx) = mpsc::channel();
+				let (tap_tx, tap_rx) = mpsc::channel();
 				let case2 = case.clone();
 				let f2 = f.clone();
 				std::thread::Builder::new()
 					.stack_size(64 << 20)
 					.spawn(move || {
-						let r = run_one(&case2, &f2);
+						let r = run_one_tapped(&case2, &f2, Some(tap_tx));
 						let _ = tx.send(r);
 					})
 					.unwrap();
 				match rx.recv_timeout(limit) {
 					Ok(r) => r,
-					Err(_) => (vec![], vec![], Some("hang".to_string())),
+					Err(_) => {
+						// the case thread is stuck (it is leaked): keep what it produced so far
+						let mut lines = vec![];
+						let mut oracle = vec![];
+						for (is_oracle, l) in tap_rx.try_iter() {
+							if is_oracle {
+								oracle.push(l)
+							} else {
+								lines.push(l)
+							}
+						}
+						(lines, oracle, Some("hang".to_string()))
+					}
 				}
 			}
 		};
@@ -139,7 +163,19 @@ fn run_one<F>(case: &[String], f: &F) -> (Vec<String>, Vec<String>, Option<Strin
 where
 	F: Fn(&[String], &mut Out),
 {
+	run_one_tapped(case, f, None)
+}
+
+fn run_one_tapped<F>(
+	case: &[String],
+	f: &F,
+	tap: Option<mpsc::Sender<(bool, String)>>,
+) -> (Vec<String>, Vec<String>, Option<String>)
+where
+	F: Fn(&[String], &mut Out),
+{
 	let mut out = Out::new();
+	out.tap = tap;
 	let r = catch_unwind(AssertUnwindSafe(|| f(case, &mut out)));
 	match r {
 		Ok(()) => (out.lines, out.oracle, None),
